@@ -144,7 +144,7 @@ def gen(tier, rng):
         out.append(mk(True, ["re", "expand"], ["%x%"], p, VARSETS[0]))
         out.append(mk(True, ["expand"], ["%x%", "%y%"], p, VARSETS[2], all_=True))
     # 4. random
-    for _ in range(1500 if quick else 40000):
+    for _ in range(1500 if quick else 30000):
         regex = rng.random() < 0.3
         nv = rng.choice([1, 1, 1, 2, 2, 3])
         values = [rand_value(rng, regex) if rng.random() < 0.9 else rng.choice(HOSTILE_R if regex else HOSTILE_S) for _ in range(nv)]
